@@ -2,6 +2,8 @@
 H1 update step (BIT), H2 fold shape, H3 generator bit step + trip counts + table store, H4 premises of the
 composition lemma (linearity), hashes: fold/step template and str/len agreement."""
 import sympy as sp
+import counted
+counted_mod = counted
 import symx, bit, alg, looptx, llir
 from bit import BV, ZERO, ONE, Lin, Off
 from symx import Ptr, Unsupported
@@ -71,6 +73,33 @@ def table_atoms(dom, bits):
     return names
 
 
+def counted_core(tx, ctrs, nname, skip=()):
+    """counted.Core over the Lin counters / Off cursors of a transformer (ctrs: phi -> symbol name)"""
+    variables = {}
+    for ph in tx.phis:
+        if ph.res not in ctrs:
+            continue
+        sym = sp.Symbol(ctrs[ph.res], integer=True)
+        i0 = tx.init[ph.res]
+        steps = set()
+        for s_, nv_ in tx.backs:
+            v = nv_[ph.res]
+            e0, e1 = (counted.lin_expr(i0.off), counted.lin_expr(v.off)) if isinstance(v, Ptr) and isinstance(i0, Ptr) else (counted.lin_expr(i0), counted.lin_expr(v))
+            if e0 is None or e1 is None:
+                raise Unsupported('loop variable %s is data dependent' % ph.res)
+            steps.add(sp.expand(e1 - sym))
+        if len(steps) != 1:
+            raise Unsupported('loop variable %s advances differently on different paths' % ph.res)
+        variables[sym] = (e0, steps.pop())
+    n = sp.Symbol(nname, integer=True) if isinstance(nname, str) else nname
+    if not isinstance(nname, str):
+        return counted.Core(n, variables, ())
+    pre, rest = counted.bit_conds(tx.pre.pc, {n})
+    if rest:
+        raise Unsupported('the loop is reached under %r' % (rest[0],))
+    return counted.Core(n, variables, pre)
+
+
 def update(rep, fn, w, order, lk):
     dom = bit.Bit()
     params = fn.params
@@ -79,22 +108,32 @@ def update(rep, fn, w, order, lk):
     V0 = BV.sym('v', w)
     args = [Ptr('table', 0), Ptr('data', 0), Lin.sym('n', 64), V0]
     roles = {}
+    ctrs = {}     # phi name -> symbol name of a counter / cursor
 
     def bind(ph, init):
         if ph.ty.is_ptr:
-            roles['p'] = ph.res
-            return Ptr(init.base, Off(0, [(('lin', 'o_p'), 1)]))
+            nm = 'o_p%d' % len(ctrs)
+            ctrs[ph.res] = nm
+            roles.setdefault('p', ph.res)
+            return Ptr(init.base, Off(0, [(('lin', nm), 1)]))
         if isinstance(init, Lin) or (isinstance(init, BV) and len(init.bits) == 64 and init.value() is not None):
             # a count starting at nbyte, or an index starting at a constant
-            roles['n'] = ph.res
-            return Lin.sym('k', 64)
+            nm = 'k%d' % len(ctrs)
+            ctrs[ph.res] = nm
+            roles.setdefault('n', ph.res)
+            return Lin.sym(nm, 64)
+        if 'v' in roles:
+            raise Unsupported('two data-dependent loop variables')
         roles['v'] = ph.res
         return BV.sym('s', ph.ty.a)
     tx = looptx.transformer(fn, lk, args, dom, bind)
     loc = fn.loc(tx.header.instrs[0])
-    indexed = set(roles) == {'n', 'v'} and len(tx.phis) == 2 and len(tx.backs) == 1
-    if not indexed and (set(roles) != {'p', 'n', 'v'} or len(tx.phis) != 3 or len(tx.backs) != 1):
-        raise Unsupported('loop of %s does not have the (pointer, count, value) or the (index, value) shape' % fn.name)
+    if 'v' not in roles or not ctrs or not tx.backs:
+        raise Unsupported('loop of %s does not have the (counters, value) shape' % fn.name)
+    # every pass computes the same next value (the bit-level step is checked on it)
+    outs = set(id(nv_[roles['v']]) if not isinstance(nv_[roles['v']], BV) else nv_[roles['v']] for s_, nv_ in tx.backs)
+    if len(outs) != 1:
+        raise Unsupported('the update step differs between paths')
     s1, nv = tx.backs[0]
     S = tx.sym[roles['v']]
     out = nv[roles['v']]
@@ -107,9 +146,13 @@ def update(rep, fn, w, order, lk):
         raise Unsupported('update step does not read exactly one data byte')
     B = byte_syms[0][1]
     boff = dom.tables[list(dom.tables)[0]]
-    curs = Off(0, [(('lin', 'k'), 1)]) if indexed else tx.sym[roles['p']].off
-    if dom.off_key(byte_syms[0][0][1]) != dom.off_key(curs):
-        probs.append('data byte is read at %s, not at the cursor' % (byte_syms[0][0][1],))
+    cn = counted_core(tx, ctrs, 'n')
+    rd = [r_ for r_ in s1.reads if r_[0] == 'data']
+    bpos = counted.lin_expr(rd[0][1]) if rd else None
+    if bpos is None:
+        raise Unsupported('data byte is read at a data-dependent position')
+    if sp.expand(cn.at(bpos) - cn.t) != 0:
+        probs.append('pass t reads the data byte at position %s, expected t' % sp.expand(cn.at(bpos)).subs(cn.t, sp.Symbol('t')))
     # table look-up
     tnames = table_atoms(dom, out.bits)
     if len(tnames) != 1:
@@ -152,41 +195,26 @@ def update(rep, fn, w, order, lk):
         rep.ok('H1', fn.name, 'value <- shift8(value) ^ table[%s ^ byte] at bit level, width %d' % (
             'value>>%d' % (w - 8) if order == 'm' else 'value&0xFF', w), loc=loc,
             sample={'fn': fn.name, 'index_bit0': bit.fmt_bit(idx.bits[0]), 'value_bit%d' % (w - 1): bit.fmt_bit(out.bits[w - 1])})
-    # H2 fold shape
+    # H2 fold shape: exactly nbyte passes, each folding the byte at the cursor into the accumulator
     fp = []
     if tx.init[roles['v']] != V0:
         fp.append('accumulator does not start as the value parameter (%r)' % (tx.init[roles['v']],))
-    g = s1.pc
-    if indexed:
-        # for (i = 0; i != nbyte; ++i) ... data[i]
-        if dom.concrete(tx.init[roles['n']]) != 0:
-            fp.append('index does not start at 0 (%r)' % (tx.init[roles['n']],))
-        if nv[roles['n']] != Lin.sym('k', 64).add(1):
-            fp.append('index becomes %r, expected index+1' % (nv[roles['n']],))
-        c0 = g[0] if len(g) == 1 and isinstance(g[0], bit.Cond) else None
-        ne = c0 is not None and ((c0.pred == 'ne' and c0.pos) or (c0.pred == 'eq' and not c0.pos))
-        lt = c0 is not None and ((c0.pred == 'ult' and c0.pos) or (c0.pred == 'uge' and not c0.pos))
-        K, N = Lin.sym('k', 64), Lin.sym('n', 64)
-        okg = c0 is not None and ((ne and ((c0.a == K and c0.b == N) or (c0.a == N and c0.b == K))) or (lt and c0.a == K and c0.b == N))
-        if not okg:
-            fp.append('loop guard %s, expected index != nbyte' % (g,))
-    else:
-        ip = tx.init[roles['p']]
-        if not (isinstance(ip, Ptr) and ip.base == 'data' and ip.off == 0):
-            fp.append('cursor does not start at pdata')
-        if tx.init[roles['n']] != Lin.sym('n', 64):
-            fp.append('count does not start as nbyte')
-        np_ = nv[roles['p']]
-        if not (isinstance(np_, Ptr) and dom.off_key(np_.off) == dom.off_key(Off(1, [(('lin', 'o_p'), 1)]))):
-            fp.append('cursor advances to %r, expected +1' % (np_,))
-        if nv[roles['n']] != Lin.sym('k', 64).add(-1):
-            fp.append('count becomes %r, expected count-1' % (nv[roles['n']],))
-        okg = len(g) == 1 and isinstance(g[0], bit.Cond) and isinstance(g[0].a, Lin) and g[0].a == Lin.sym('k', 64) and (
-            (g[0].pred == 'ne' and g[0].pos) or (g[0].pred == 'eq' and not g[0].pos)) and dom.concrete(g[0].b) == 0
-        if not okg:
-            fp.append('loop guard %s, expected count != 0' % (g,))
-    if not tx.finals or len(tx.finals) != 1 or tx.finals[0][1] != S:
-        fp.append('the returned value is not the accumulator')
+    if tx.finals is None or not tx.finals:
+        raise Unsupported('no path from the loop to the return')
+
+    def folded(val):
+        if val == S:
+            return 0
+        if val == out:
+            return 1
+        fp.append('the returned value is neither the accumulator nor its update')
+        return None
+    backs = [(counted.bit_conds(s_.pc, cn.psyms)[0], 1) for s_, nv_ in tx.backs]
+    fins = [(counted.bit_conds(s_.pc, cn.psyms)[0], folded(r_)) for s_, r_ in tx.finals]
+    fp += cn.verdicts(backs, fins)
+    for s_, r_ in tx.pre_rets:
+        if r_ != V0:
+            fp.append('an empty input returns %r, expected the value parameter' % (r_,))
     if any(k[0] != 'alloca' for k in s1.store if not str(k[0]).startswith('alloca')):
         fp.append('the update loop writes memory')
     if fp:
@@ -299,12 +327,6 @@ def generator(rep, fn, w, order, lk):
             hi = [j for j in range(w, vw) if out.bits[j] != ZERO]
             if hi:
                 probs.append('bits above the CRC width do not stay zero (bit %d)' % hi[0])
-        # counter
-        if nv[roles['b']] != Lin.sym('b', tx.sym[roles['b']].w).add(-1):
-            probs.append('bit counter becomes %r, expected b-1' % (nv[roles['b']],))
-        lg = [c for c in other if isinstance(c, bit.Cond) and isinstance(c.a, Lin)]
-        if not (len(lg) == 1 and ((lg[0].pred == 'ne' and lg[0].pos) or (lg[0].pred == 'eq' and not lg[0].pos)) and dom.concrete(lg[0].b) == 0):
-            probs.append('inner guard %s, expected b != 0' % (other,))
     if len(paths) == 2 and seen != {0, 1}:
         probs.append('the two paths do not cover tested bit = 0 and = 1')
     if probs:
@@ -376,13 +398,19 @@ def generator(rep, fn, w, order, lk):
     cn = it2.val(cphi.ops[cphi.x['labels'].index(prev4.name)], s4, fn)
     if cn != Cl.add(1):
         cp.append('byte counter becomes %r, expected c+1' % (cn,))
-    binit = tx.init[roles['b']]
-    if dom.concrete(binit) != 8:
-        cp.append('bit counter starts at %r, expected 8' % (binit,))
+    # exactly 8 bit steps per entry, however the inner loop counts them (down to 0, up to 8, ...)
+    if tx.exits[0][2] is not ih:
+        raise Unsupported('the inner loop is tested at the bottom')
+    try:
+        cnb = counted_core(tx, {roles['b']: 'b'}, sp.Integer(8))
+        cp += ['bit steps: ' + x for x in cnb.verdicts([(counted.bit_conds(s_.pc, cnb.psyms)[0], 1) for s_, nv_ in tx.backs],
+                                                       [(counted.bit_conds(s_.pc, cnb.psyms)[0], 0) for s_, b_, p_ in tx.exits])]
+    except Unsupported as e:
+        raise Unsupported('bit counter: %s' % e)
     if cp:
         rep.bad('H3', fn.name + ':counts', '; '.join(cp), loc=loc, key='%s: trip counts' % fn.name)
     else:
-        rep.ok('H3', fn.name + ':counts', 'c = 0..255 (init 0, +1, while c != 0x100); 8 bit steps per entry (init 8, -1, while b != 0)', loc=loc)
+        rep.ok('H3', fn.name + ':counts', 'c = 0..255 (init 0, +1, while c != 0x100); exactly 8 bit steps per entry (induction on the bit counter, guard decided on the remaining count)', loc=loc)
 
 
 # ---------------------------------------------------------------- hashes
@@ -427,62 +455,79 @@ def hashes(ctx):
             roles = {}
 
             def bind(ph, init):
+                roles['cnt'] = roles.get('cnt', 0) + 1
                 if ph.ty.is_ptr:
                     roles['p'] = ph.res
-                    return Ptr(init.base, dom.sym('o', integer=True))
+                    return Ptr(init.base, dom.sym('o%d' % roles['cnt'], integer=True))
                 if init == val:
                     roles['v'] = ph.res
                     return dom.sym('h', integer=True)
                 roles['n'] = ph.res
-                return dom.sym('k', integer=True, nonnegative=True)
+                return dom.sym('k%d' % roles['cnt'], integer=True)
             tx = looptx.transformer(fn, lk, args, dom, bind)
-            if 'v' not in roles or 'p' not in roles or len(tx.backs) != 1:
+            if 'v' not in roles or not tx.backs:
                 raise Unsupported('loop does not have the (cursor, hash) shape')
-            s1, nv = tx.backs[0]
             h = tx.sym[roles['v']]
-            o = tx.sym[roles['p']].off
-            byte = dom.sym('str[%s]' % dom.off_key(o), real=True)
-            e = sp.expand(nv[roles['v']])
             probs = []
             bsym = sp.Symbol('BYTE')
-            canon = e.subs(byte, bsym)
-            extra = [x for x in canon.free_symbols if x not in (h, bsym)]
-            if extra or not canon.has(bsym) or not canon.has(h):
-                probs.append('step h <- %s is not a function of (h, byte at the cursor) alone' % e)
-            else:
-                steps[name] = canon
-            if not (isinstance(nv[roles['p']], Ptr) and alg.is_zero(sp.sympify(nv[roles['p']].off) - o - 1)):
-                probs.append('cursor does not advance by one byte')
-            def ne0(c, v):
-                return isinstance(c, alg.Cond) and c.rel() == '!=' and ((alg.is_zero(sp.sympify(c.a) - v) and c.b == 0) or (alg.is_zero(sp.sympify(c.b) - v) and c.a == 0))
 
-            def eq0(c, v):
-                return isinstance(c, alg.Cond) and c.rel() == '==' and ((alg.is_zero(sp.sympify(c.a) - v) and c.b == 0) or (alg.is_zero(sp.sympify(c.b) - v) and c.a == 0))
-            rotated = False
-            if counted:
-                k = tx.sym[roles['n']]
-                if not alg.is_zero(nv[roles['n']] - k + 1):
-                    probs.append('count becomes %s, expected count-1' % nv[roles['n']])
-                g = [c for c in s1.pc if isinstance(c, alg.Cond)]
-                if any(ne0(c, k) for c in g):
-                    pass
-                elif any(ne0(c, sp.sympify(nv[roles['n']])) for c in g):
-                    # rotated form  if (siz) do { step } while (--siz);  the test sits at the bottom on the new count: the same fold when the
-                    # loop is entered under siz != 0 only and the empty input returns the value parameter
-                    rotated = True
-                    siz_ = args[1]
-                    if not any(ne0(c, siz_) for c in tx.pre.pc) or not any(any(eq0(c, siz_) for c in s_.pc) and r_ == val for s_, r_ in getattr(tx, 'pre_rets', [])):
-                        probs.append('the loop tests the count at the bottom but is not entered under siz != 0 with siz == 0 returning the value parameter')
+            def step_of(e):
+                """canonical form of a next-hash expression: the hash and ONE byte of the string -> (term in (h, BYTE), byte offset)"""
+                e = sp.expand(e)
+                bs = [x for x in e.free_symbols if dom.entry_off.get(x.name, (None,))[0] == 'str']
+                if len(bs) != 1:
+                    return None, None
+                canon = e.subs(bs[0], bsym)
+                if [x for x in canon.free_symbols if x not in (h, bsym)] or not canon.has(h):
+                    return None, None
+                return canon, dom.entry_off[bs[0].name][1]
+            forms = set()
+            offs = []
+            for s1, nv in tx.backs:
+                canon, off = step_of(nv[roles['v']])
+                if canon is None:
+                    probs.append('step h <- %s is not a function of (h, one byte of the string) alone' % sp.expand(nv[roles['v']]))
                 else:
-                    probs.append('guard %s, expected count != 0' % g)
-            if rotated:
-                if not tx.finals or any(not alg.is_zero(sp.sympify(r) - sp.sympify(nv[roles['v']])) for s_, r in tx.finals):
-                    probs.append('returned value is not the new accumulator')
-            elif not tx.finals or any(r != h for s_, r in tx.finals):
-                probs.append('returned value is not the accumulator')
+                    forms.add(canon)
+                    offs.append(off)
+            if len(forms) == 1:
+                steps[name] = list(forms)[0]
+            elif not probs:
+                raise Unsupported('the step differs between paths')
+            e = sp.expand(tx.backs[0][1][roles['v']])
+            if tx.finals is None or not tx.finals:
+                raise Unsupported('no path from the loop to the return')
             if counted:
-                pass
+                cn, _a = counted_mod.from_alg(tx, args[1], skip={roles['v']})
+                for off in offs:
+                    if sp.expand(cn.at(off) - cn.t) != 0:
+                        probs.append('pass t reads the byte at position %s, expected t' % sp.expand(cn.at(off)).subs(cn.t, sp.Symbol('t')))
+
+                def folded(r_):
+                    if r_ == h:
+                        return 0
+                    c2, o2 = step_of(r_)
+                    if c2 is not None and name in steps and alg.is_zero(c2 - steps[name]) and sp.expand(cn.at(o2) - cn.t) == 0:
+                        return 1
+                    probs.append('returned value %s is neither the accumulator nor its update' % (r_,))
+                    return None
+                probs += cn.verdicts([(counted_mod.alg_conds(s_.pc, cn.psyms), 1) for s_, nv_ in tx.backs],
+                                     [(counted_mod.alg_conds(s_.pc, cn.psyms), folded(r_)) for s_, r_ in tx.finals])
+                for s_, r_ in tx.pre_rets:
+                    if r_ != val:
+                        probs.append('an empty input returns %s, expected the value parameter' % (r_,))
             else:
+                if len(tx.backs) != 1 or 'p' not in roles:
+                    raise Unsupported('loop does not have the (cursor, hash) shape')
+                s1, nv = tx.backs[0]
+                o = tx.sym[roles['p']].off
+                byte = dom.sym('str[%s]' % dom.off_key(o), real=True)
+                if offs and not alg.is_zero(sp.sympify(offs[0]) - o):
+                    probs.append('the byte folded is not the byte at the cursor')
+                if not (isinstance(nv[roles['p']], Ptr) and alg.is_zero(sp.sympify(nv[roles['p']].off) - o - 1)):
+                    probs.append('cursor does not advance by one byte')
+                if any(r != h for s_, r in tx.finals):
+                    probs.append('returned value is not the accumulator')
                 g = [c for c in s1.pc if isinstance(c, alg.Cond)]
                 if not any(c.rel() == '!=' and c.a == byte and c.b == 0 for c in g):
                     probs.append('guard %s, expected byte at the cursor != 0' % g)
